@@ -1042,7 +1042,9 @@ peepPositive(Foam expr)
 			new = foamNewBInt(bintNegate(expr->foamBInt.BIntData));
 		break;
 	case FOAM_SInt:
-		if (expr->foamSInt.SIntData < 0)
+		/* The most negative value has no positive counterpart. */
+		if (expr->foamSInt.SIntData < 0 &&
+		    expr->foamSInt.SIntData + LONG_MAX >= 0)
 			new = foamNewSInt(-expr->foamSInt.SIntData);
 		break;
 	default:
